@@ -354,10 +354,15 @@ func (c *c19) edit(l *lut) {
 	c.lastEdit = p
 	c.nVer++
 	content := fmt.Sprintf("%s:%s#%d", l.kind, p, c.nVer)
-	if t.Choose(10) == 9 {
+	switch t.Choose(10) {
+	case 9:
 		// a long file: read in several chunks through every wrapper
 		content += ":" + strings.Repeat("p", []int{700, 5000, 70000}[t.Choose(3)])
 		c.env.Stat("probe:file_longer_than_512_bytes", 1)
+	case 8:
+		// a file of length zero is a file: it exists, and opening it yields nothing
+		content = ""
+		c.env.Stat("probe:file_of_length_zero", 1)
 	}
 	switch l.kind {
 	case "inmem":
@@ -916,6 +921,14 @@ func RunC19(env *sim.Env) {
 		// list): whatever happens to the first one later, this one keeps its construction order
 		twin := multi.NewLoader(loaders...)
 		twinOwners := append([]*lut(nil), luts[:nInitial]...)
+		if t.Choose(3) == 2 {
+			// the caller goes on using its own slice: the stacks built from it keep the loaders
+			// they were built with, in that order
+			nobody := c.newLut("inmem")
+			loaders[t.Choose(len(loaders))] = nobody.loader
+			c.hist = append(c.hist, "callers-slice-element-overwritten")
+			env.Stat("probe:callers_slice_written_after_NewLoader", 1)
+		}
 		if inner == nil && t.Bool(1, 2) {
 			// ... and gets a loader of its own: the two stacks share their first loaders only
 			xl := c.newLut("inmem")
